@@ -521,23 +521,9 @@ impl<'a> Ord for BorrowedTerm<'a> {
                     }
                 }
                 (
-                    BorrowedTerm::ImproperList {
-                        elements: a,
-                        tail: ta,
-                    },
-                    BorrowedTerm::ImproperList {
-                        elements: b,
-                        tail: tb,
-                    },
-                ) => {
-                    for (x, y) in a.iter().zip(b.iter()) {
-                        match x.cmp(y) {
-                            Ordering::Equal => continue,
-                            other => return other,
-                        }
-                    }
-                    a.len().cmp(&b.len()).then_with(|| ta.cmp(tb))
-                }
+                    BorrowedTerm::Nil | BorrowedTerm::List(_) | BorrowedTerm::ImproperList { .. },
+                    BorrowedTerm::Nil | BorrowedTerm::List(_) | BorrowedTerm::ImproperList { .. },
+                ) => compare_lists(self, other, &type_order),
                 (BorrowedTerm::Binary(a), BorrowedTerm::Binary(b)) => a.cmp(b),
                 (BorrowedTerm::String(a), BorrowedTerm::String(b)) => a.cmp(b),
                 (BorrowedTerm::Binary(a), BorrowedTerm::String(b)) => a.as_ref().cmp(b.as_bytes()),
@@ -552,6 +538,19 @@ impl<'a> Ord for BorrowedTerm<'a> {
                         bits: bbits,
                     },
                 ) => a.cmp(b).then_with(|| abits.cmp(bbits)),
+                // a binary is a bit string whose last byte has all 8 bits in use
+                (BorrowedTerm::Binary(a), BorrowedTerm::BitBinary { bytes: b, bits }) => {
+                    a.cmp(b).then_with(|| 8.cmp(bits))
+                }
+                (BorrowedTerm::BitBinary { bytes: a, bits }, BorrowedTerm::Binary(b)) => {
+                    a.cmp(b).then_with(|| bits.cmp(&8))
+                }
+                (BorrowedTerm::String(a), BorrowedTerm::BitBinary { bytes: b, bits }) => {
+                    a.as_bytes().cmp(b.as_ref()).then_with(|| 8.cmp(bits))
+                }
+                (BorrowedTerm::BitBinary { bytes: a, bits }, BorrowedTerm::String(b)) => {
+                    a.as_ref().cmp(b.as_bytes()).then_with(|| bits.cmp(&8))
+                }
                 _ => Ordering::Equal,
             },
             other => other,
@@ -701,6 +700,83 @@ fn compare_bigint_float(big: &BigInt, f: f64) -> Ordering {
 
 fn compare_float_bigint(f: f64, big: &BigInt) -> Ordering {
     compare_bigint_float(big, f).reverse()
+}
+
+/// Walks the elements of a list-like term (`Nil`, `List`, `ImproperList`), following
+/// list-valued tails, so that `[1 | [2]]` and `[1, 2]` are seen as the same list.
+struct ListCursor<'t, 'a> {
+    elements: &'t [BorrowedTerm<'a>],
+    tail: Option<&'t BorrowedTerm<'a>>,
+}
+
+impl<'t, 'a> ListCursor<'t, 'a> {
+    fn new(term: &'t BorrowedTerm<'a>) -> Self {
+        ListCursor {
+            elements: &[],
+            tail: Some(term),
+        }
+    }
+
+    fn next(&mut self) -> Option<&'t BorrowedTerm<'a>> {
+        loop {
+            if let Some((first, rest)) = self.elements.split_first() {
+                self.elements = rest;
+                return Some(first);
+            }
+            match self.tail.take() {
+                Some(BorrowedTerm::List(elements)) => self.elements = elements,
+                Some(BorrowedTerm::ImproperList { elements, tail }) => {
+                    self.elements = elements;
+                    self.tail = Some(tail);
+                }
+                Some(BorrowedTerm::Nil) | None => return None,
+                Some(improper_tail) => {
+                    self.tail = Some(improper_tail);
+                    return None;
+                }
+            }
+        }
+    }
+}
+
+/// Erlang list comparison: element-wise, then the remainders are compared as terms
+/// (a proper end is `[]`, which sorts before any non-empty list).
+fn compare_lists<'a>(
+    a: &BorrowedTerm<'a>,
+    b: &BorrowedTerm<'a>,
+    type_order: &dyn Fn(&BorrowedTerm) -> u8,
+) -> Ordering {
+    const LIST_ORDER: u8 = 8;
+    let mut x = ListCursor::new(a);
+    let mut y = ListCursor::new(b);
+    loop {
+        match (x.next(), y.next()) {
+            (Some(p), Some(q)) => match p.cmp(q) {
+                Ordering::Equal => continue,
+                other => return other,
+            },
+            (None, None) => {
+                return match (x.tail, y.tail) {
+                    (None, None) => Ordering::Equal,
+                    (None, Some(t)) => LIST_ORDER.cmp(&type_order(t)),
+                    (Some(t), None) => type_order(t).cmp(&LIST_ORDER),
+                    (Some(s), Some(t)) => s.cmp(t),
+                };
+            }
+            (None, Some(_)) => {
+                return match x.tail {
+                    None => Ordering::Less,
+                    Some(t) => type_order(t).cmp(&LIST_ORDER),
+                };
+            }
+            (Some(_), None) => {
+                return match y.tail {
+                    None => Ordering::Greater,
+                    Some(t) => LIST_ORDER.cmp(&type_order(t)),
+                };
+            }
+        }
+    }
 }
 
 fn compare_owned_term_lists(a: &[OwnedTerm], b: &[OwnedTerm]) -> Ordering {
